@@ -746,16 +746,53 @@ def plan(tier, seed):
                for i in range(N_SHARDS)]
   else:
     shards = [{"kind": "ex", "universe": "reduced", "depth": 2, "part": i, "parts": N_SHARDS} for i in range(N_SHARDS)]
+  shards.append({"kind": "scripts"})
   per = walks // N_SHARDS
   for i in range(N_SHARDS):
     shards.append({"kind": "rw", "universe": "full", "lo": i * per, "hi": (i + 1) * per})
   return shards
 
 
+# Directed histories (both tiers): shapes that the bounded breadth-first enumeration does not reach and random walks reach rarely.
+SCRIPTS = [
+  # a cycle through three levels: the root is pushed below its grandchild (and below a deeper descendant)
+  [["set_doc", "span3", "D1"], ["push_child", "span2", "span3"], ["push_child", "span3", "span1"]],
+  [["set_doc", "span3", "D1"], ["push_child", "span2", "span3"], ["push_children", "span3", ["span1"]]],
+  [["set_doc", "span3", "D1"], ["push_child", "p1", "span1"], ["push_child", "span2", "span3"], ["push_child", "span3", "span1"]],
+  [["set_doc", "span3", "D1"], ["push_child", "span2", "span3"], ["push_child", "span3", "span2"]],
+  [["set_doc", "span3", "D1"], ["remove_child", "span3", "text2"], ["push_child", "span2", "span3"], ["push_child", "span3", "span1"],
+   ["push_child", "span1", "span3"]],
+  # an element moved between parents keeps exactly one parent
+  [["set_doc", "span3", "D1"], ["push_child", "p1", "span3"], ["push_child", "span1", "span3"], ["remove", "span3"], ["push_child", "span1", "span3"],
+   ["push_child", "p1", "span3"]],
+]
+
+
+def run_scripts(ctx, p):
+  for script in SCRIPTS:
+    u = build("full")
+    pre = u.snapshot()
+    hist, known = [], frozenset()
+    for op in script:
+      used = [op[1]] + ((op[2] if isinstance(op[2], list) else [op[2]]) if len(op) > 2 else [])
+      if any(n not in u.el_names and n not in u.doc_names for n in used if isinstance(n, str)):
+        break
+      hist.append(op)
+      res = step(ctx, u, op, pre, hist, known)
+      ctx.count("script:steps")
+      known = res.issue_keys
+      pre = res.post
+      if res.violated:
+        break
+    ctx.count("script:histories")
+
+
 def run(ctx, p):
   install_watchdog()
   if p["kind"] == "ex":
     run_ex(ctx, p)
+  elif p["kind"] == "scripts":
+    run_scripts(ctx, p)
   else:
     run_rw(ctx, p)
 
